@@ -435,6 +435,9 @@ pub struct TwoLevelIterator {
 
     /// The block handle used to get the data block in the [`TwoLevelIterator::data_block`] field.
     data_block_handle: Option<BlockHandle>,
+
+    /// The error that made `next` or `prev` stop early, if there was one.
+    iteration_error: Option<RainDBError>,
 }
 
 /// Private methods
@@ -449,6 +452,7 @@ impl TwoLevelIterator {
             index_block_iter,
             maybe_data_block_iter: None,
             data_block_handle: None,
+            iteration_error: None,
         }
     }
 
@@ -540,6 +544,10 @@ impl RainDbIterator for TwoLevelIterator {
     type Key = InternalKey;
     type Error = RainDBError;
 
+    fn take_error(&mut self) -> Option<Self::Error> {
+        self.iteration_error.take()
+    }
+
     fn is_valid(&self) -> bool {
         self.maybe_data_block_iter.is_some()
             && self.maybe_data_block_iter.as_ref().unwrap().is_valid()
@@ -608,6 +616,7 @@ impl RainDbIterator for TwoLevelIterator {
                     error: {}",
                     error
                 );
+                self.iteration_error = Some(error.into());
                 return None;
             }
         }
@@ -638,6 +647,7 @@ impl RainDbIterator for TwoLevelIterator {
                     error: {}",
                     error
                 );
+                self.iteration_error = Some(error.into());
                 return None;
             }
         }
